@@ -194,6 +194,35 @@ def p_secgrp(_=None):
     return prog
 
 
+class InjectedFault(Exception):
+    pass
+
+
+def p_fault(_=None):
+    """a coroutine without return value raises at every party after its first await (the runtime swallows the exception);
+    the program continues with more forks, a barrier and further operations"""
+    async def prog(mpc):
+        secint = mpc.SecInt(16)
+
+        @mpc.coroutine
+        async def audit(x) -> None:
+            v = await mpc.output(x)
+            if v != 0:
+                raise InjectedFault(f'audit failed: {v}')
+
+        x = mpc.input(secint(5 + mpc.pid))
+        s = mpc.sum(x)
+        audit(s)                                # dies inside its task, at a schedule-dependent moment
+        y = s * s
+        z = [a * a + 1 for a in x]
+        await mpc.barrier()
+        w = mpc.prod(z)
+        r = await mpc.output([y, w, mpc.max(z)])
+        return [int(v) for v in r]
+    prog.expected_exc = (InjectedFault,)
+    return prog
+
+
 def p_np(_=None):
     async def prog(mpc):
         import numpy as np
@@ -220,4 +249,5 @@ PROGRAMS = {
     'secflt': (p_secflt, {'flt'}),
     'np': (p_np, {'np'}),
     'secgrp': (p_secgrp, {'grp'}),
+    'fault': (p_fault, {'int', 'fault'}),
 }
